@@ -389,18 +389,20 @@ def is_malformed(f, data):
     if f == "yaml":
         import yaml
         ok_c = ok_py = True
+        # only a YAMLError is a verdict on the file's syntax; anything else (e.g. PyYAML's own IndexError while constructing an
+        # empty scalar tagged !!int, which is well-formed YAML) is a crash of the reference parser, not a rejection
         try:
             list(yaml.load_all(data, Loader=yaml.CLoader))
         except yaml.YAMLError:
             ok_c = False
         except Exception:
-            ok_c = False
+            return False
         try:
             list(yaml.load_all(data, Loader=yaml.Loader))
         except yaml.YAMLError:
             ok_py = False
         except Exception:
-            ok_py = False
+            return False
         return not ok_c and not ok_py
     if f in ("xml", "html"):
         try:
